@@ -119,7 +119,7 @@ def random_history(rng, nprogs, length):
             ops.append(["new"]); nobj += 1
         elif k < 5 and nobj:
             name = rng.choice(list(OPTS) + ["unparser"])
-            val = rng.choice(OPTS[name]) if rng.random() < 0.85 else rng.choice(["bogus", "", "List"])
+            val = rng.choice(OPTS[name]) if rng.random() < 0.85 else rng.choice(["bogus", "", "List", rng.choice(OPTS[name]) + " ", " " + rng.choice(OPTS[name]), rng.choice(OPTS[name]) + "\t"])
             ops.append(["set", rng.randrange(nobj + (1 if rng.random() < .05 else 0)), name, val])
         elif k < 7 and nobj:
             ops.append(["convert", rng.randrange(nprogs), rng.randrange(nobj)])
@@ -217,6 +217,9 @@ def main(argv):
     # the pool, so that nothing follows them in the fresh reference process either
     progs[nprogs - 1] = "leak_before = 1\nn = 2\nwhile n:\n    n -= 1\ntry:\n    pass\nexcept Exception:\n    pass\nleak_after = [k for k in range(2)]\n"
     progs[nprogs - 2] = "def f(a):\n    b = a + 1\n    def g():\n        return b\n    return g\nfor i in [1]:\n    print(i)\ncontinue\nafter = f(1)()\n"
+    # refused while the transformer is inside a lambda body and a comprehension whose variables are called like the
+    # captured variables of progs[8] / progs[0] / progs[11]
+    progs[nprogs - 3] = "def f(alpha):\n    h = lambda n, k, *a, **kw: [lambda: (yield n + k + w + v) for w in [alpha] for v in [w]]\n    return h\nprint(f(1))\n"
     try:
         F = fresh_table(progs, per_conversion=(ck.tier == "thorough"))
     except Exception as e:
@@ -226,7 +229,7 @@ def main(argv):
     # every ordered pair of the curated programs, with one option object and with the default options
     for i in range(nprogs):
         for j in range(nprogs):
-            if i != j and (ck.tier == "thorough" or ((i >= 7 or j >= 7) and i < 12 and j < 12) or i >= nprogs - 2):
+            if i != j and (ck.tier == "thorough" or ((i >= 7 or j >= 7) and i < 12 and j < 12) or i >= nprogs - 3):
                 hists.append([["new"], ["set", 0, "unparser", "oneliner"], ["convert", i, 0], ["convert", j, 0], ["convertDefault", i], ["convertDefault", j]])
     model = None
     if b["driver_ok"]:
